@@ -133,13 +133,40 @@ Theorem fallback_completes :
   forall w cp sv h used,
   reachable blob seal open tamper junk w -> zget (w_servers w) (cp_srv cp) = Some sv ->
   client_offer blob cp (offered blob w cp) (w_now w) (w_fresh w) = Offer blob h used ->
-  o_fsuite cp <> 0 ->
+  o_fsuite cp <> 0 -> cp_half cp = 0 (* the transport delivers the handshake *) ->
   let r := d_log blob (conn_delta blob seal open w cp sv) in
   let v := Z.min (cp_maxv cp) (sv_maxv (sv_cfg sv)) in
   (4 <= v -> server_psk blob open (sv_cfg sv) cp h (w_now w) = S13Full -> r_out r = ODone false false) /\
   (v < 4 -> snd (server_try_resume blob open (sv_cfg sv) (sv_store sv) (o_acc cp) h (w_now w)) = SFull ->
    r_out r = ODone false false).
 Proof. exact (fallback_completes_all blob seal open tamper junk). Qed.
+
+(* Connections overlap: a history may hold several connections open at once (close events name any open
+   connection) and may hold a full handshake up before the client's Finished reaches the server (cp_half).
+   A held-up handshake leaves nothing resumable: no cache entry, no ticket. *)
+Theorem suspended_leaves_nothing_resumable :
+  forall w cp sv,
+  let d := conn_delta blob seal open w cp sv in
+  r_out (d_log blob d) = OSuspended ->
+  d_issue blob d = None /\ r_sview (d_log blob d) = None /\
+  forall st e, d_store blob d = Some st -> In e st -> In e (sv_store sv).
+Proof. exact (Proofs.C13_Thms.suspended_leaves_nothing_resumable blob seal open). Qed.
+
+(* "a session enters the cache only after both Finished messages verified": in every reachable world every
+   cache entry stems from a connection of the history that completed as a full handshake *)
+Theorem cache_only_completed :
+  forall w e, reachable blob seal open tamper junk w -> entries blob w e ->
+  exists r, In r (w_log w) /\ r_out r = ODone false false /\ r_sview r = Some (ce_sess e).
+Proof. exact (Proofs.C13_Thms.cache_only_completed blob seal open tamper junk). Qed.
+
+(* "resumable is monotone: once cleared by a fatal error it is never set again" (server's cached object;
+   connections sharing it may close in any order, cleanly or not) *)
+Theorem resumable_monotone_server :
+  forall w crec sid sv e,
+  reachable blob seal open tamper junk w -> In crec (w_conns w) -> cr_ks crec = true -> cr_sobj crec = Some sid ->
+  zget (w_servers w) (cr_srv crec) = Some sv -> In e (sv_store sv) -> s_sid (ce_sess e) = sid ->
+  ce_res e = false.
+Proof. exact (Proofs.C13_Thms.resumable_monotone_server blob seal open tamper junk). Qed.
 
 (* honest ticket offer resumes (completeness of acceptance, all inputs): a ticket sealed under a current
    key, within lifetime, suite still acceptable, offered with a consistent ClientHello (suite offered, SRP
